@@ -145,6 +145,17 @@ def r_smoother(name):
     return run
 
 
+class Fragile(Exception):
+    """The input sits exactly on a branch the source decides by comparing a float with a constant (discarded and counted)."""
+
+
+def _s_is_zero(cal, nd):
+    """All positive calibration values equal: s = log(mean) - mean(log) is exactly 0, so 's <= 0' is decided by rounding noise
+    (which differs between the compiled float32 / float64 code and the interpreter). What the library must do there is C08's business."""
+    pos = cal[(cal != nd) & (cal > 0)]
+    return pos.size >= 1 and bool(np.all(pos == pos[0]))
+
+
 def r_stats(name):
     def run(case):
         dt = case["dtype"]
@@ -160,10 +171,16 @@ def r_stats(name):
             a = (3 - s + math.sqrt((s - 3) ** 2 + 24 * s)) / (12 * s)
             return nj(name, (a * 0.6, a * 1.4, s))
         if name == "stats.gammafit":
+            if _s_is_zero(xi, nd):
+                raise Fragile("gamma_s_exactly_zero")
             return nj(name, (xi[xi > 0],), twin_args=(_widen(xi[xi > 0]),))
         if name == "stats.gammastd":
+            if _s_is_zero(xi[c0:c1], nd):
+                raise Fragile("gamma_s_exactly_zero")
             return nj(name, (xi, nd, c0, c1), twin_args=(_widen(xi), nd, c0, c1))
         if name == "stats.gammastd_yxt":
+            if _s_is_zero(xi[c0:c1], nd) or _s_is_zero(xi[::-1][c0:c1], nd):
+                raise Fragile("gamma_s_exactly_zero")
             cube = np.stack([xi, xi[::-1]]).reshape(2, 1, n)
             return nj(name, (cube, nd, c0, c1), twin_args=(_widen(cube), nd, c0, c1))
         if name == "stats.gammastd_grp":
@@ -187,6 +204,10 @@ def r_stats(name):
                 o = np.zeros(n, dtype="int16")
                 T(name)(_widen(cube[j]), g, 2, float(nd), ci, o)
                 tw[j] = o
+                for grp in (0, 1):
+                    sub = cube[j][g == grp]
+                    if _s_is_zero(sub[ci[grp, 0]:ci[grp, 1]], nd):
+                        tw[j][g == grp] = np.asarray(got)[j][g == grp]  # branch decided by rounding noise: not compared
             return (np.asarray(got),), (tw,)
         xm = np.array(case["mk"], dtype="float64").astype(dt)
         if name == "stats.mk_score":
@@ -343,6 +364,8 @@ def sub_program(case):
                 got, tw = run(case)
     except FloatingPointError:
         return "interpreter_overflow"
+    except Fragile as e:
+        return str(e)
     compare(name, case, got, tw, list(twins.PROXY.rounded) + list(_rounded))
     # integer width: compiled(x) == compiled(widen(x)) where the program takes any integer width
     if case["dtype"] in ("int16", "int32") and name in WIDENABLE:
